@@ -13,7 +13,8 @@ RULE = ('laws: a generated tree (dict with str/int keys, list, tuple, ndarray, s
         '1..6 copy-and-set operations whose paths are built by construction from the current tree (existing leaf / inner '
         'node, fresh dict key, list append, fresh multi-level suffix, ndarray element, SELF); views: leaf enumeration, '
         'multi-key reads, Literal/SELF/SKIP keys, key_paths, apply(map_fn), copy_and_update; non-trivial = tree depth >= 2 '
-        'and the (first) path shares a proper prefix with another leaf; distinct = distinct canonical case JSON')
+        'and the (first) path shares a proper prefix with another leaf; distinct = distinct canonical case JSON'
+        '; also: shared sub-containers, plain "SELF"/"SKIP" and tuple-typed dict keys, array views, repeated paths in pair updates (list and generator), wide trees of 33..70 rows')
 ASSUMPTIONS = [
     'reference = vlib/oracles/tree_ref.py (copy-on-write set, DFS leaf enumeration) written from the TreeMapView docstrings',
     'root is a container; dict keys may be the plain strings "SELF"/"SKIP" (the reserved keys are the Key.SELF / Key.SKIP objects); '
